@@ -272,32 +272,37 @@ structure TxOut where
   cds : Option CDSOut
   deriving DecidableEq, Repr, Inhabited
 
-/-- `TranscriptInterval.__init__` (parent-less).  The CDS is compared with the exons by its OUTER bounds only,
-    and `cds_starts[0]` is read before anything checks that the list is non-empty. -/
+/-- lines 82-113 of `TranscriptInterval.__init__`: the CDS arguments.  `x0` / `xN` are `exon_starts[0]` /
+    `exon_ends[-1]`.  The CDS is compared with the exons by its OUTER bounds only, and `cds_starts[0]` is read
+    before anything checks that the list is non-empty. -/
+def txCds (x0 xN : Int) (st : Strand) (cdsS cdsE : Option (List Int)) (cdsF : Option (List CDSFrame)) :
+    V (Option CDSOut) :=
+  match cdsS, cdsE with
+  | some _, none => raise .InvalidCDSInterval
+  | none, some _ => raise .InvalidCDSInterval
+  | none, none => pure none
+  | some cs, some ce =>
+      if cs.length ≠ ce.length then raise .InvalidCDSInterval
+      else match cs.head?, ce.getLast? with
+        | some c0, some cN =>
+            if c0 < x0 then raise .InvalidCDSInterval
+            else if cN > xN then raise .InvalidCDSInterval
+            else match cdsF with
+              | none => raise .InvalidCDSInterval
+              | some fr =>
+                  if fr.length ≠ cs.length then raise .InvalidCDSInterval
+                  else do
+                    let c ← mkCDS cs ce st (fr.map FP.frame)
+                    pure (some c)
+        | _, _ => .error (.internal "IndexError")      -- `cds_starts[0]` on an empty list
+
+/-- `TranscriptInterval.__init__` (parent-less) -/
 def mkTx (exS exE : List Int) (st : Strand) (cdsS cdsE : Option (List Int)) (cdsF : Option (List CDSFrame)) :
     V TxOut := do
   let _ ← initLoc exS exE st
   match exS.head?, exE.getLast? with
-  | some x0, some xN =>
-      let cds ← (match cdsS, cdsE with
-        | some _, none => raise .InvalidCDSInterval
-        | none, some _ => raise .InvalidCDSInterval
-        | none, none => pure none
-        | some cs, some ce =>
-            if cs.length ≠ ce.length then raise .InvalidCDSInterval
-            else match cs.head?, ce.getLast? with
-              | some c0, some cN =>
-                  if c0 < x0 then raise .InvalidCDSInterval
-                  else if cN > xN then raise .InvalidCDSInterval
-                  else match cdsF with
-                    | none => raise .InvalidCDSInterval
-                    | some fr =>
-                        if fr.length ≠ cs.length then raise .InvalidCDSInterval
-                        else do
-                          let c ← mkCDS cs ce st (fr.map FP.frame)
-                          pure (some c)
-              | _, _ => .error (.internal "IndexError")      -- `cds_starts[0]` on an empty list
-        : V (Option CDSOut))
+  | some x0, some xN => do
+      let cds ← txCds x0 xN st cdsS cdsE cdsF
       pure ⟨x0, xN, exS.zip exE, cds⟩
   | _, _ => raise .Location              -- unreachable: initLoc refused empty lists
 
